@@ -137,6 +137,15 @@ def tolerated(kind, where, code, want, opts, active):
 def judge(got, want, kind, opts, active, chain=()):
     defaults_on = opts.get("emit_default_doc", True) and all(True for _ in chain)
     for where, code in iface_diffs(got, want, kind, defaults_on=defaults_on, ws=opts.get("ws", False)):
+        if code == "order":
+            # KF-RT-noprose-order tolerates exactly ONE order: parameters with prose first, then the prose-less ones, each group in
+            # source order.  Anything else is a violation.
+            names = list(want["params"].keys())
+            expected = [n for n in names if want["params"][n].get("doc")] + [n for n in names if not want["params"][n].get("doc")]
+            if "KF-RT-noprose-order" in active and list(got["params"].keys()) == expected and any(
+                    k in ("class", "function", "method") for k in (kind,) + tuple(chain)):
+                continue
+            return False
         if permitted(where, code, kind, want, chain):
             continue
         if any(tolerated(k, where, code, want, opts, active) for k in (kind,) + tuple(chain)):
